@@ -65,7 +65,6 @@ def summarize(inst, ops):
 def ops_for(inst, summary, with_hold):
     chain, last, on_copy, view, held = summary
     ops = []
-    scan_ok = True
     for k in range(4):
         ops.append(("calc", k))
     for k in range(4):
